@@ -8,7 +8,7 @@
 //! R = "every snapshot in the repository lists and dumps exactly its model content".
 //! Undamaged: not E and R. Every damaged state: R or E (equivalently: not E implies R).
 
-use std::sync::Arc;
+use std::{collections::BTreeMap, sync::Arc};
 
 use proptest::prelude::*;
 use rustic_core::{FileType, Id};
@@ -34,6 +34,20 @@ pub struct Case {
     pub positions: Vec<u16>,
     /// rotate the list of fault states so that the per-case cap reaches all of them over cases
     pub rotate: u16,
+    /// how the handle that runs `check` is opened
+    #[serde(default)]
+    pub cache: CacheMode,
+}
+
+#[derive(Debug, Clone, Copy, Default, PartialEq, Eq, Serialize, Deserialize)]
+pub enum CacheMode {
+    /// no local cache
+    #[default]
+    None,
+    /// the library's default: a local cache; its directory is new and empty for every check
+    Fresh,
+    /// a local cache that a check of the undamaged repository has filled before the fault
+    Warm,
 }
 
 fn strategy(_ctx: &Ctx) -> BoxedStrategy<Case> {
@@ -48,20 +62,22 @@ fn strategy(_ctx: &Ctx) -> BoxedStrategy<Case> {
                 tree(p),
                 prop::collection::vec(
                     hop(p, true).prop_filter("no stale-handle op", |o| {
-                        !matches!(o, HOp::PruneThenStaleBackup { .. } | HOp::CutBackup { .. })
+                        !matches!(o, HOp::PruneThenStaleBackup { .. } | HOp::PrunesThenStaleBackup { .. } | HOp::CutBackup { .. })
                     }),
                     0..5,
                 ),
                 prop::collection::vec(any::<u16>(), 2..5),
                 any::<u16>(),
+                prop_oneof![2 => Just(CacheMode::None), 1 => Just(CacheMode::Fresh), 1 => Just(CacheMode::Warm)],
             )
         })
-        .prop_map(|(cfg, tree, ops, positions, rotate)| Case {
+        .prop_map(|(cfg, tree, ops, positions, rotate, cache)| Case {
             cfg,
             tree,
             ops,
             positions,
             rotate,
+            cache,
         })
         .boxed()
 }
@@ -100,6 +116,13 @@ fn restorable(storage: &Arc<Storage>, cfg: &RepoCfg, live: &[(rustic_core::repof
         Ok(Err(e)) => return Err(format!("snapshots cannot be listed: {}", e.display_log())),
         Err(p) => return Err(format!("listing snapshots panicked: {p}")),
     };
+    // every stored snapshot file is a snapshot of the repository: one that the listing silently
+    // leaves out cannot be restored any more
+    for id in &present {
+        if !all.iter().any(|s| *s.id == *id) {
+            return Err(format!("snapshot file {id} is stored but the repository does not list it as a snapshot"));
+        }
+    }
     for s in &all {
         let Some((_, model)) = live.iter().find(|(l, _)| l.id == s.id) else {
             // a snapshot file under an id that never was a snapshot of this history (e.g. an index
@@ -109,6 +132,53 @@ fn restorable(storage: &Arc<Storage>, cfg: &RepoCfg, live: &[(rustic_core::repof
         let got = read_snapshot(&full, s, true)?;
         if let Some(d) = compare(model, &got, &CmpOpts { full_meta: true, content: true }) {
             return Err(format!("snapshot {}: {d}", s.id));
+        }
+    }
+    Ok(())
+}
+
+/// a sort key that depends on what a file holds, not on its (random) name
+fn stable_key(key: &[u8; 64], tpe: FileType, data: &[u8]) -> [u8; 32] {
+    let mut acc: Vec<u8> = Vec::new();
+    match tpe {
+        FileType::Pack => {
+            if let Ok(info) = vpcore::fmt::parse_pack(key, data) {
+                for e in &info.entries {
+                    acc.extend_from_slice(&e.id);
+                }
+            }
+        }
+        FileType::Index => {
+            if let Some(idx) = decode_file(key, data).ok().and_then(|j| parse_index(&j).ok()) {
+                let mut ids: Vec<String> = idx
+                    .packs
+                    .iter()
+                    .chain(idx.packs_to_delete.iter())
+                    .flat_map(|p| p.blobs.iter().map(|b| b.id.clone()))
+                    .collect();
+                ids.sort();
+                acc = ids.concat().into_bytes();
+            }
+        }
+        FileType::Snapshot => {
+            if let Some(v) = decode_file(key, data).ok().and_then(|j| serde_json::from_slice::<serde_json::Value>(&j).ok()) {
+                acc = format!("{}{}", v["time"], v["tree"]).into_bytes();
+            }
+        }
+        _ => {}
+    }
+    if acc.is_empty() { sha256(data) } else { sha256(&acc) }
+}
+
+fn copy_dir(from: &std::path::Path, to: &std::path::Path) -> std::io::Result<()> {
+    std::fs::create_dir_all(to)?;
+    for e in std::fs::read_dir(from)? {
+        let e = e?;
+        let dest = to.join(e.file_name());
+        if e.file_type()?.is_dir() {
+            copy_dir(&e.path(), &dest)?;
+        } else {
+            _ = std::fs::copy(e.path(), &dest)?;
         }
     }
     Ok(())
@@ -200,9 +270,38 @@ pub fn run(c: &Case, ctx: &Ctx) -> Outcome {
         CheckVerdict::Clean => {}
     }
 
+    // the check handle's local cache
+    let scratch = (c.cache != CacheMode::None).then(|| crate::fsutil::Scratch::new("c05"));
+    let open_cached = |st: &Arc<Storage>, dir: &std::path::Path| -> Result<crate::repo::RepoOpen, String> {
+        rustic_core::Repository::new(
+            &rustic_core::RepositoryOptions::default().cache_dir(dir.to_path_buf()),
+            &crate::repo::backends(st.handle()),
+        )
+        .map_err(|e| e.display_log())?
+        .open(&c.cfg.credentials())
+        .map_err(|e| format!("open with a cache: {}", e.display_log()))
+    };
+    if let (CacheMode::Warm, Some(s)) = (c.cache, &scratch) {
+        let warm = s.path().join("warm");
+        match open_cached(&w.storage, &warm) {
+            Ok(repo) => match check_verdict(&repo, true) {
+                CheckVerdict::Errors(e) => fail!("undamaged repository, check through a cached handle: {e}"),
+                CheckVerdict::Inconclusive(_) => return out.skip("check_inconclusive_on_undamaged"),
+                CheckVerdict::Clean => {}
+            },
+            Err(e) => fail!("undamaged repository: {e}"),
+        }
+    }
+    out = out.class(format!("check_cache_{:?}", c.cache));
+
     // enumerate fault states
     let mut states: Vec<(FileType, Id, Fault)> = Vec::new();
-    for ((t, id), data) in &base {
+    // File ids are random (nonces): walk the files in an order derived from their decrypted
+    // content, so that a saved case judges the same window of fault states when it is replayed.
+    let mut ordered: Vec<(&(u8, Id), &bytes::Bytes)> = base.iter().collect();
+    ordered.sort_by_cached_key(|((t, id), data)| (*t, stable_key(&key, tfrom(*t), data), *id));
+    let rank: BTreeMap<(u8, Id), usize> = ordered.iter().enumerate().map(|(i, (k, _))| (**k, i)).collect();
+    for ((t, id), data) in ordered.iter().copied() {
         let tpe = tfrom(*t);
         if matches!(tpe, FileType::Config | FileType::Key) {
             continue;
@@ -242,9 +341,9 @@ pub fn run(c: &Case, ctx: &Ctx) -> Outcome {
                 states.push((tpe, *id, Fault::Flip(f, (i as u8).wrapping_mul(3))));
             }
         }
-        let siblings: Vec<Id> = base.keys().filter(|(t2, i2)| t2 == t && i2 != id).map(|(_, i)| *i).take(4).collect();
+        let siblings: Vec<Id> = ordered.iter().map(|(k, _)| **k).filter(|(t2, i2)| t2 == t && i2 != id).map(|(_, i)| i).take(4).collect();
         for s in siblings {
-            if s > *id {
+            if rank[&(*t, s)] > rank[&(*t, *id)] {
                 states.push((tpe, *id, Fault::Swap(s)));
             }
         }
@@ -260,14 +359,41 @@ pub fn run(c: &Case, ctx: &Ctx) -> Outcome {
         states.rotate_left(r);
     }
     let mut judged = 0u64;
+    let mut state_no = 0u64;
     let mut detected = 0u64;
     let mut harmless = 0u64;
     for (tpe, id, f) in states.into_iter().take(cap) {
         let Some(files) = apply_fault(&base, &key, tpe, &id, &f) else { continue };
         let st = Storage::from_files(files);
         let r = restorable(&st, &c.cfg, &live);
-        let e = match open_repo(st.handle(), &c.cfg) {
-            Ok(repo) => check_verdict(&repo, true),
+        state_no += 1;
+        let opened = match (&scratch, c.cache) {
+            (Some(s), CacheMode::Fresh) => {
+                let dir = s.path().join(format!("fresh-{state_no}"));
+                open_cached(&st, &dir)
+            }
+            (Some(s), CacheMode::Warm) => {
+                // every state starts from a copy of the cache as the undamaged check left it
+                let dir = s.path().join(format!("state-{state_no}"));
+                if let Err(e) = copy_dir(&s.path().join("warm"), &dir) {
+                    fail!("copying the warm cache: {e}");
+                }
+                open_cached(&st, &dir)
+            }
+            _ => open_repo(st.handle(), &c.cfg),
+        };
+        let e = match opened {
+            Ok(repo) => match crate::repo::check_verdict_owned(repo, true) {
+                Ok(v) => v,
+                Err(e) if e == crate::engine::SKIP_AFTER_DEADLOCK => return out.skip("after_deadlock_in_this_worker"),
+                Err(hang) => {
+                    out.failure = Some(format!(
+                        "after fault `{}` on {tpe} file {id:?} ({f:?}) check --read-data never returns: {hang}",
+                        fault_name(&f)
+                    ));
+                    return out;
+                }
+            },
             Err(e) => CheckVerdict::Errors(e),
         };
         out = out.class(format!("fault_{}_{}", fault_name(&f), tpe));
